@@ -7,9 +7,22 @@ export GOFLAGS=-mod=mod GOPROXY=off GOSUMDB=off GOTOOLCHAIN=local
 id="$1"; tier="$2"; shift 2
 lc=$(echo "$id" | tr 'A-Z' 'a-z')
 mkdir -p bin evidence replays
-if ! go build -tags verif -o "bin/$lc" "./cmd/$lc" >"bin/$lc.build.log" 2>&1; then
+# VERIF_REPO=<dir> runs the check against another copy of goadesign/goa (a scratch worktree
+# with a candidate change applied) instead of /repo: an alternate go.mod replaces the module.
+MODFLAG=""
+BIN="bin/$lc"
+if [ -n "$VERIF_REPO" ] && [ "$VERIF_REPO" != "/repo" ]; then
+  tag=$(echo "$VERIF_REPO" | cksum | cut -d' ' -f1)
+  mkdir -p ".work/alt-$tag"
+  sed "s#=> /repo#=> $VERIF_REPO#" go.mod > ".work/alt-$tag/go.mod"
+  cp go.sum ".work/alt-$tag/go.sum"
+  MODFLAG="-modfile=$PWD/.work/alt-$tag/go.mod"
+  export VERIF_MODFILE="$PWD/.work/alt-$tag/go.mod"
+  BIN="bin/$lc.alt-$tag"
+fi
+if ! go build $MODFLAG -tags verif -o "$BIN" "./cmd/$lc" >"bin/$lc.build.log" 2>&1; then
   cat "bin/$lc.build.log"
   echo "HARNESS-ERROR $id: check binary does not build against /repo"
   exit 2
 fi
-exec "./bin/$lc" --tier "$tier" "$@"
+exec "./$BIN" --tier "$tier" "$@"
